@@ -90,15 +90,8 @@ Definition param_tags : list string := ["param"; "arg"; "keyword"].
 (* a warning was issued on the line of field i *)
 Definition reported_at (i : nat) (reps : list report) : Prop := exists r, In r reps /\ rp_field r = i.
 
-(* a warning says that the parameter this field documents is documented more than once *)
-Definition dup_reported (f : field) (reps : list report) : Prop :=
-  is_tag param_tags f = true /\
-  exists n r, arg_name f = Some n /\ In r reps /\ rp_name r = n /\
-              (rp_kind r = RAlreadyDoc \/ rp_kind r = RAsKeyword).
-
 Definition routed (i : nat) (f : field) (secs : list section) (reps : list report) : Prop :=
-  (exists e, entry_of_tag (f_tag f) = Some e /\ shown_once_under i e secs)
-  \/ reported_at i reps \/ dup_reported f reps.
+  (exists e, entry_of_tag (f_tag f) = Some e /\ shown_once_under i e secs) \/ reported_at i reps.
 
 (* ---- the fields pydoctor drops without a word (from the input alone) ---------------------------------- *)
 Inductive slot := SlReturn | SlRtype | SlYield | SlYtype.
@@ -139,9 +132,12 @@ Definition silently_lost (E : env) (fs : list field) (i : nat) (f : field) : boo
   || (is_tag ["type"] f && existsb (fun g => is_tag ["type"] g && same_name f g) later)
   (* (c) @ivar / @cvar / @var in the docstring of a function *)
   || is_var_tag (f_tag f)
-  (* (d) @param/@arg/@keyword x followed by a @keyword x : the later one replaces it (no warning unless x is a
-         parameter of the signature or has a @type) *)
-  || (is_tag param_tags f && existsb (fun g => is_tag ["keyword"] g && same_name f g) later)
+  (* (d) @param/@arg/@keyword x followed by another @param/@arg/@keyword x : the later one replaces it.
+         OVER-APPROXIMATION: when the later one is a @param/@arg, or a @keyword of a name that is in the signature
+         or has a @type, pydoctor does warn ('Parameter "x" was already documented' / 'is documented as keyword' --
+         see C09_dup_param_reported); only @keyword x after @param/@keyword x for an x outside the signature is silent.
+         The positive theorem leaves all parameter duplicates out. *)
+  || (is_tag param_tags f && existsb (fun g => is_tag param_tags g && same_name f g) later)
   (* (e) @type self (method) / @type cls (class method) without a @param for it *)
   || (is_tag ["type"] f &&
       match stripped_first E, arg_name f with
